@@ -1,7 +1,7 @@
 import TwistedProps.C15.Final
 /-!
 C15 lemmas — progress: under the discipline every fair round that starts in a non-quiescent state strictly
-decreases the measure `mu`, so `runFair` reaches a quiescent state.
+decreases the measure `mu`, so `runFair0` reaches a quiescent state.
 
   `wt c k`  = 2·|pending c| + |k.inq| + [c.writing] + [c.reading]·(3 + 2·|reply of c|) + [c.abortCall]
   `mu s`    = wt a ka + wt b kb
@@ -71,18 +71,18 @@ theorem mono_disconnectSelectable (v : View) (w : Reason) (r : Bool) : MonoS v (
     · exact mono_trans _ _ _ (mono_conn v _) (mono_connLost _ _)
   · exact mono_trans _ _ _ (mono_conn v _) (mono_trans _ _ _ (mono_conn _ _) (mono_connLost _ _))
 
-theorem mono_doRead (p : Params) (v : View) (n : Nat) : MonoS v (doRead p v n).2 := by
+theorem mono_doRead (p : Params) (v : View) (n : Nat) : MonoS v (doRead0 p v n).2 := by
   by_cases ha : v.c.aborting = true
-  · simp [doRead, ha]; exact mono_refl v
+  · simp [doRead0, ha]; exact mono_refl v
   by_cases hn : n = 0
-  · simp [doRead, kRecv, ha, hn]; exact mono_refl v
+  · simp [doRead0, kRecv, ha, hn]; exact mono_refl v
   by_cases hq : v.k.inq.isEmpty = true
   · by_cases hr : v.k.inRst = true
-    · simp [doRead, kRecv, ha, hn, hq, hr]; exact mono_refl v
+    · simp [doRead0, kRecv, ha, hn, hq, hr]; exact mono_refl v
     · by_cases hf : v.k.inFin = true
-      · simp [doRead, kRecv, ha, hn, hq, hr, hf]; exact mono_refl v
-      · simp [doRead, kRecv, ha, hn, hq, hr, hf]; exact mono_refl v
-  · simp [doRead, kRecv, ha, hn, hq]
+      · simp [doRead0, kRecv, ha, hn, hq, hr, hf]; exact mono_refl v
+      · simp [doRead0, kRecv, ha, hn, hq, hr, hf]; exact mono_refl v
+  · simp [doRead0, kRecv, ha, hn, hq]
     refine ⟨id, fun p' h => ?_⟩
     simp only [writable, Bool.or_eq_true, decide_eq_true_eq, List.length_drop] at h ⊢
     rcases h with h | h
@@ -119,14 +119,14 @@ theorem mono_finishW (v : View) : MonoS v (finishW v).2 := by
       · exact hk
     · exact mono_refl v
 
-theorem mono_afterSend (v : View) (off : Bytes) (l : Nat) : MonoS v (afterSend v off l).2 := by
+theorem mono_afterSend (v : View) (off : Bytes) (l : Nat) : MonoS v (afterSend0 v off l).2 := by
   rw [afterSend_eq]
   split
   · exact mono_trans _ _ _ (mono_conn v _) (mono_finishW _)
   · exact mono_conn v _
 
-theorem mono_doWrite (p : Params) (v : View) (n : Nat) : MonoS v (doWrite p v n).2 := by
-  unfold doWrite
+theorem mono_doWrite (p : Params) (v : View) (n : Nat) : MonoS v (doWrite0 p v n).2 := by
+  unfold doWrite0
   split
   · exact mono_refl v
   · dsimp only
@@ -138,8 +138,8 @@ theorem mono_doWrite (p : Params) (v : View) (n : Nat) : MonoS v (doWrite p v n)
     | none => exact hv'
     | some l => exact mono_trans _ _ _ hv' (mono_afterSend v' _ l)
 
-theorem mono_io (p : Params) (v : View) (i o h : Bool) (nr nw : Nat) : MonoS v (io p v i o h nr nw) :=
-  io_preserves (MonoS v) p (fun v' n h => mono_trans _ _ _ h (mono_doRead p v' n))
+theorem mono_io (p : Params) (v : View) (i o h : Bool) (nr nw : Nat) : MonoS v (io0 p v i o h nr nw) :=
+  io0_preserves (MonoS v) p (fun v' n h => mono_trans _ _ _ h (mono_doRead p v' n))
     (fun v' n h => mono_trans _ _ _ h (mono_doWrite p v' n))
     (fun v' w r h => mono_trans _ _ _ h (mono_disconnectSelectable v' w r)) v i o h nr nw (mono_refl v)
 
@@ -179,7 +179,7 @@ theorem dec_of_lt (p : Params) (o : Conn) (v v' : View) (i ou : Bool) (nr nw : N
     (h : muV o v' < muV o v) : Dec p o v v' i ou nr nw := ⟨Nat.le_of_lt h, fun _ _ _ _ _ => h⟩
 
 theorem L1_ioA_mu (wd : Bool) (p : Params) (hp : 0 < p.sendLimit) (v : View) (b : Conn) (i o h : Bool) (nr nw : Nat)
-    (hs : L1 wd v.c b v.k v.pk) : Dec p b v (io p v i o h nr nw) i o nr nw := by
+    (hs : L1 wd v.c b v.k v.pk) : Dec p b v (io0 p v i o h nr nw) i o nr nw := by
   have H := hs
   simp only [L1, ClosingC, OpenC, SockOk] at H
   obtain ⟨ie, oe, h1, h2, -, ho, e⟩ := io_rtw p v i o h nr nw (by simp [hupCond, H]) (by simp [H])
@@ -224,7 +224,7 @@ theorem dec_data (p : Params) (hrm : 0 < p.recvMax) (o : Conn) (v : View) (n : N
 
 theorem peer_reads_mu (wd : Bool) (p : Params) (hrm : 0 < p.recvMax) (o : Conn) (v : View) (i ou h : Bool)
     (nr nw : Nat) (ho : OpenC v.c wd) (hk : SockOk v.k false wd) (hw : v.c.writing = false) :
-    Dec p o v (io p v i ou h nr nw) i ou nr nw := by
+    Dec p o v (io0 p v i ou h nr nw) i ou nr nw := by
   simp only [OpenC, SockOk] at ho hk
   by_cases hr : v.c.reading = true
   · obtain ⟨ie, oe, h1, h2, hi, -, e⟩ := io_rtw p v i ou h nr nw (by simp [hupCond, hk]) (by simp [ho])
@@ -254,7 +254,7 @@ theorem rbound_lose (c : Conn) (h : c.halfCloseable = true → c.onReadLost = [.
   · rfl
 
 theorem L2_ioB_mu (wd : Bool) (p : Params) (hrm : 0 < p.recvMax) (v : View) (a : Conn) (i o h : Bool) (nr nw : Nat)
-    (hs : L2 wd a v.c v.pk v.k) : Dec p a v (io p v i o h nr nw) i o nr nw := by
+    (hs : L2 wd a v.c v.pk v.k) : Dec p a v (io0 p v i o h nr nw) i o nr nw := by
   have H := hs
   simp only [L2, DeadC, OpenC, SockOk, SockClosed] at H
   obtain ⟨ie, oe, h1, h2, hi, -, e⟩ := io_rtw p v i o h nr nw (by simp [H]) (by simp [H])
@@ -286,7 +286,7 @@ theorem L2_ioB_mu (wd : Bool) (p : Params) (hrm : 0 < p.recvMax) (v : View) (a :
         simp [H, hq] <;> omega
 
 theorem L3_ioB_mu (p : Params) (hp : 0 < p.sendLimit) (v : View) (a : Conn) (i o h : Bool) (nr nw : Nat)
-    (hs : L3 a v.c v.pk v.k) : Dec p a v (io p v i o h nr nw) i o nr nw := by
+    (hs : L3 a v.c v.pk v.k) : Dec p a v (io0 p v i o h nr nw) i o nr nw := by
   have H := hs
   simp only [L3, DeadC, ClosingC, SockOk, SockClosed] at H
   obtain ⟨ie, oe, h1, h2, -, ho, e⟩ := io_rtw p v i o h nr nw (by simp [hupCond, H]) (by simp [H])
@@ -302,7 +302,7 @@ theorem L3_ioB_mu (p : Params) (hp : 0 < p.sendLimit) (v : View) (a : Conn) (i o
     simp [H]
 
 theorem lose_ioA_mu (wd : Bool) (p : Params) (hp : 0 < p.sendLimit) (v : View) (b : Conn) (i o h : Bool) (nr nw : Nat)
-    (hs : LoseA wd b v) : Dec p b v (io p v i o h nr nw) i o nr nw := by
+    (hs : LoseA wd b v) : Dec p b v (io0 p v i o h nr nw) i o nr nw := by
   rcases hs with hs | hs | ⟨rfl, hs⟩ | hs
   · exact L1_ioA_mu wd p hp v b i o h nr nw hs
   · rw [io_idle p v i o h nr nw hs.2.1.2.2.2.2.1 hs.2.1.2.2.2.2.2.1]
@@ -313,7 +313,7 @@ theorem lose_ioA_mu (wd : Bool) (p : Params) (hp : 0 < p.sendLimit) (v : View) (
     exact dec_refl_idle p b v i o nr nw hs.1.2.2.2.2.1 hs.1.2.2.2.2.2.1
 
 theorem lose_ioB_mu (wd : Bool) (p : Params) (hp : 0 < p.sendLimit) (hrm : 0 < p.recvMax) (v : View) (a : Conn)
-    (i o h : Bool) (nr nw : Nat) (hs : LoseB wd a v) : Dec p a v (io p v i o h nr nw) i o nr nw := by
+    (i o h : Bool) (nr nw : Nat) (hs : LoseB wd a v) : Dec p a v (io0 p v i o h nr nw) i o nr nw := by
   rcases hs with hs | hs | ⟨rfl, hs⟩ | hs
   · have H := hs
     simp only [L1] at H
@@ -328,20 +328,20 @@ theorem replyBytes_reply (rs : List AppOp) : replyBytes (rs ++ [.lose]) = replyB
   simp [replyBytes, opBytes]
 
 theorem H1_ioA_mu (p : Params) (hp : 0 < p.sendLimit) (v : View) (b : Conn) (i o h : Bool) (nr nw : Nat)
-    (hs : H1 v.c b v.k v.pk) : Dec p b v (io p v i o h nr nw) i o nr nw := by
+    (hs : H1 v.c b v.k v.pk) : Dec p b v (io0 p v i o h nr nw) i o nr nw := by
   have H := hs
   simp only [H1, HalfC, OpenC, SockOk] at H
   obtain ⟨hc1, hc2, H⟩ := H
   obtain ⟨ie, oe, h1, h2, -, ho, e⟩ := io_rtw p v i o h nr nw (by simp [hupCond, H]) (by simp [H])
   rw [e]
-  have hrd : ∀ n, doRead p v n = (none, v) := by
+  have hrd : ∀ n, doRead0 p v n = (none, v) := by
     intro n
     rcases doRead_cases p v n (by simp [H]) with ⟨-, e⟩ | ⟨-, hq, -⟩ | ⟨-, -, hr, -⟩ | ⟨-, -, -, hf, -⟩
     · exact e
     · simp [H] at hq
     · simp [H] at hr
     · simp [H] at hf
-  have hw : readThenWrite p v false oe nr nw = readThenWrite p v ie oe nr nw := by
+  have hw : readThenWrite0 p v false oe nr nw = readThenWrite0 p v ie oe nr nw := by
     cases ie
     · rfl
     · rw [rtw_t, hrd]
@@ -376,7 +376,7 @@ theorem H1_ioA_mu (p : Params) (hp : 0 < p.sendLimit) (v : View) (b : Conn) (i o
         omega
 
 theorem H2_ioA_mu (p : Params) (v : View) (b : Conn) (i o h : Bool) (nr nw : Nat)
-    (hs : H2 v.c b v.k v.pk) : Dec p b v (io p v i o h nr nw) i o nr nw := by
+    (hs : H2 v.c b v.k v.pk) : Dec p b v (io0 p v i o h nr nw) i o nr nw := by
   have H := hs
   simp only [H2, OpenC, SockOk] at H
   obtain ⟨hc1, hc2, H⟩ := H
@@ -395,7 +395,7 @@ theorem H2_ioA_mu (p : Params) (v : View) (b : Conn) (i o h : Bool) (nr nw : Nat
     · simp [H] at hf
 
 theorem H2_ioB_mu (p : Params) (hrm : 0 < p.recvMax) (v : View) (a : Conn) (i o h : Bool) (nr nw : Nat)
-    (hs : H2 a v.c v.pk v.k) : Dec p a v (io p v i o h nr nw) i o nr nw := by
+    (hs : H2 a v.c v.pk v.k) : Dec p a v (io0 p v i o h nr nw) i o nr nw := by
   have H := hs
   simp only [H2, OpenC, SockOk] at H
   obtain ⟨hc1, hc2, H⟩ := H
@@ -437,14 +437,14 @@ theorem H2_ioB_mu (p : Params) (hrm : 0 < p.recvMax) (v : View) (a : Conn) (i o 
         simp [H, hq] <;> omega
 
 theorem half_ioA_mu (p : Params) (hp : 0 < p.sendLimit) (hrm : 0 < p.recvMax) (v : View) (b : Conn)
-    (i o h : Bool) (nr nw : Nat) (hs : HalfInv v.c b v.k v.pk) : Dec p b v (io p v i o h nr nw) i o nr nw := by
+    (i o h : Bool) (nr nw : Nat) (hs : HalfInv v.c b v.k v.pk) : Dec p b v (io0 p v i o h nr nw) i o nr nw := by
   rcases hs with hs | hs | hs
   · exact H1_ioA_mu p hp v b i o h nr nw hs
   · exact H2_ioA_mu p v b i o h nr nw hs
   · exact lose_ioB_mu true p hp hrm v b i o h nr nw hs
 
 theorem half_ioB_mu (p : Params) (hp : 0 < p.sendLimit) (hrm : 0 < p.recvMax) (v : View) (a : Conn)
-    (i o h : Bool) (nr nw : Nat) (hs : HalfInv a v.c v.pk v.k) : Dec p a v (io p v i o h nr nw) i o nr nw := by
+    (i o h : Bool) (nr nw : Nat) (hs : HalfInv a v.c v.pk v.k) : Dec p a v (io0 p v i o h nr nw) i o nr nw := by
   rcases hs with hs | hs | hs
   · have H := hs
     simp only [H1] at H
@@ -453,7 +453,7 @@ theorem half_ioB_mu (p : Params) (hp : 0 < p.sendLimit) (hrm : 0 < p.recvMax) (v
   · exact lose_ioA_mu true p hp v a i o h nr nw hs
 
 theorem abort_ioB_mu (p : Params) (hrm : 0 < p.recvMax) (v : View) (a : Conn) (i o h : Bool) (nr nw : Nat)
-    (hs : AbortInv a v.c v.pk v.k) : Dec p a v (io p v i o h nr nw) i o nr nw := by
+    (hs : AbortInv a v.c v.pk v.k) : Dec p a v (io0 p v i o h nr nw) i o nr nw := by
   rcases hs with hs | hs | hs
   · have H := hs
     simp only [X1] at H
